@@ -445,6 +445,45 @@ func propC14(a *Analysis, r *Registry) {
 			} else {
 				r.Fail("B-C14 formula", name+"/total-step", b.pos(fn), "total is not accumulated over the bin counts")
 			}
+			// NaN for a rank in the under- or over-flow, a value otherwise. The exact edges
+			// (rank == under, rank == total-over) are the convention left undecided (Undec); what is
+			// decided is everything off the edges: rank < under ⇒ NaN, rank > total-over ⇒ NaN,
+			// under < rank < total-over ⇒ not NaN.
+			func() {
+				S := X.S
+				nan := S.False()
+				nNaN := 0
+				for _, rt := range fc.Ctx.Returns() {
+					if len(rt.Results) != 1 {
+						continue
+					}
+					if va := fc.Val(rt.Results[0]).SingleAtom(); va == nil || va.Name != "math.NaN" {
+						continue
+					}
+					nNaN++
+					nan = S.Or(nan, fc.ReachCondFrom(fc.Ctx.LoopFreeRegionStart(rt.Block()), rt.Block()))
+				}
+				G := S.atomRF(at.ID)
+				W := total.Sub(e2.MustParse("hist.Counts()#2"))
+				cn := name + "/NaN-when"
+				if nNaN == 0 {
+					r.Fail("B-C14 formula", cn, b.pos(fn), "no NaN result for ranks in the under- or over-flow")
+					return
+				}
+				bad := ""
+				if X.EvalCond(nan, []Assumption{{Cond: S.Cmp("<", G, under), True: true}}) != True {
+					bad = "a rank below the under count does not give NaN"
+				} else if X.EvalCond(nan, []Assumption{{Cond: S.Cmp("<", W, G), True: true}}) != True {
+					bad = "a rank above total-over does not give NaN"
+				} else if X.EvalCond(nan, []Assumption{{Cond: S.Cmp("<", under, G), True: true}, {Cond: S.Cmp("<", G, W), True: true}}) != False {
+					bad = "a rank strictly inside the binned range can give NaN"
+				}
+				if bad != "" {
+					r.Fail("B-C14 formula", cn, b.pos(fn), bad+": NaN is returned when "+clip(nan.String(), 200))
+				} else {
+					r.OK("B-C14 formula", cn, b.pos(fn), "rank < under ⇒ NaN, rank > total-over ⇒ NaN, under < rank < total-over ⇒ a value")
+				}
+			}()
 		})
 	}
 	a.CheckNoMutation(r, "A-1 no-mutation", a.W.Fn("stats.HistogramQuantile"), nil)
